@@ -259,6 +259,7 @@ class Session:
         r = E.call_fn(f, args, guard, mem)
         if r is X.DIVERGE:
             raise Inconclusive('%s: no return reached (%s)' % (f.name, '; '.join(w for g, w in E.unsupported)[:600]))
+        self.ret_guard = X.zbool(r[1])      # condition under which the call returns (does not panic)
         return r[0]
 
     def _skip(self, oid):
